@@ -103,7 +103,7 @@ def ensure_coq(clean=False):
         return rc == 0, out
 
 
-def ensure_runner(name="modelrun", extract="Extract/Extract.v", drivers=("util.ml", "modelrun.ml"), mlmods=("model",)):
+def ensure_runner(name="modelrun", extract="Extract/Extract.v", drivers=("util.ml", "memrun.ml", "modelrun.ml"), mlmods=("model",)):
     """Re-extract and rebuild an OCaml model runner when the Coq or ML sources changed.
     extract: path (relative to coq/) of the extraction file, which writes <mlmod>.ml/.mli in its cwd;
     drivers: files under ml/ compiled after the extracted modules, in order."""
@@ -115,7 +115,7 @@ def ensure_runner(name="modelrun", extract="Extract/Extract.v", drivers=("util.m
         srcs = list(COQ.rglob("*.vo")) + [VERIF / "ml" / d for d in drivers] + [exv]
         if target.exists() and all(s.stat().st_mtime <= target.stat().st_mtime for s in srcs if s.exists()):
             return True, "up to date"
-        rc, out = sh("coqc -Q %s '' -o %s/Extract.vo %s" % (COQ, ml, exv), cwd=ml, timeout=1800)
+        rc, out = sh("coqc -Q %s '' -o %s/%s.vo %s" % (COQ, ml, exv.stem, exv), cwd=ml, timeout=1800)
         if rc != 0:
             return False, out
         for dname in drivers:
@@ -144,7 +144,13 @@ def ensure_harness(name="harness", tags="verif", cgo=True, race=False, srcdir="h
 def forbidden_tokens():
     """grep the development for anything that would declare an axiom or switch off a check."""
     hits = []
-    for f in sorted(COQ.rglob("*.v")):
+    listed = [COQ / l.strip() for l in (COQ / "_CoqProject").read_text().splitlines()
+              if l.strip().endswith(".v")]
+    listed += sorted((COQ / "Extract").glob("*.v"))
+    for f in listed:
+        if not f.exists():
+            hits.append("%s: listed in _CoqProject but missing" % f.relative_to(VERIF))
+            continue
         txt = f.read_text()
         # strip comments (non-nested is enough: we never nest)
         txt2 = re.sub(r"\(\*.*?\*\)", "", txt, flags=re.S)
